@@ -499,7 +499,9 @@ fn seed(kind: usize) -> ir::Module {
     // K at top level, nested at depth 2 under a list parent and under a fixed-arity parent
     let mut m = module(vec![
         ("main", func(&[], vec![k.clone(), C::Composite("list".into(), vec![int(70), k.clone()]), C::IfTrue(b(int(71)), b(k))])),
-        ("other", func(&["a"], vec![int(80), s("tail")])),
+        // the second function has nested cards too: the in-function path of a card of one function can
+        // be a prefix of the path of a card of the other function (0.0 and 1.0.0, 0.1 and 1.1.1.0)
+        ("other", func(&["a"], vec![C::Not(b(int(80))), C::Composite("o".into(), vec![int(81), C::Not(b(int(82)))]), s("tail")])),
     ]);
     // submodules with functions and cards of their own: a CardIndex addresses the functions of the
     // module the API is called on, so none of these cards has an index in the root module
